@@ -82,7 +82,7 @@ func c17(ctx *core.Ctx) {
 	quietLogs()
 	ctx.Rule("tables on the fragment both matching engines support (nested literal roots, literal and {v} segments, Consumes/Produces, no conditions), both routers. For each URL u: S(u) = methods in {GET,POST,PUT,DELETE,PATCH,HEAD} whose probe on a filter-less twin is not 404/405. Oracle: every 405's Allow set == S(u) (also for OPTIONS and an unknown method); with OPTIONSFilter installed OPTIONS u gives Allow == Access-Control-Allow-Methods == S(u), runs no route function, and every other probe equals the twin's answer. Non-trivial = a URL with non-empty S(u); distinct by (router, |S(u)|, number of matching roots, trailing slash).")
 	ctx.Assume("OPTIONS itself is outside the compared universe (removed from both sides): the filter answers it by construction", "every 3rd table has explicit OPTIONS routes; every 3rd table has routes added/removed on registered WebServices between three probe passes")
-	tables := ctx.N(2500, 30000)
+	tables := ctx.N(2500, 150000)
 	perTable := ctx.N(25, 50)
 	if !ctx.Quick() {
 		perTable = 50
@@ -248,7 +248,7 @@ func c18(ctx *core.Ctx) {
 	quietLogs()
 	ctx.Rule("twin containers built from the same table on the common fragment (nested literal roots; literal and {v} route segments; Consumes/Produces; conditions), differing only in router; every request (hits, near misses, trailing slash, Content-Type/Accept grammar, body or none) must give the same status, route function, parameter values and Allow set. Non-trivial = a request that reaches route level in at least one router; distinct by (outcome class, template shape or request class).")
 	ctx.Assume("paths are clean (no empty segments): the routers tokenise unclean paths differently and the property is silent there (DESIGN §4.2)")
-	tables := ctx.N(5000, 80000)
+	tables := ctx.N(5000, 400000)
 	perTable := ctx.N(40, 60)
 	if !ctx.Quick() {
 		perTable = 60
